@@ -96,6 +96,35 @@ def gen_series(rng, ind: str, n_series: int, length: int) -> List[Tuple[int, Tup
     return out
 
 
+def gen_fill_series(rng, ind: str) -> List[Tuple[int, Tuple[int, str, int]]]:
+    """series for fill_time_series: the first and last YEARS of the data are (mostly) 53-week years for W and leap years for D, and
+    the datapoints sit at the year boundaries (last and next-to-last period of the last year, first period of the first year) as
+    well as inside; one or two series sharing the year range."""
+    special = W53 if ind == "W" else LEAP if ind == "D" else W53 + LEAP + PLAIN
+    last = rng.choice(special) if rng.random() < 0.75 else rng.choice(PLAIN)
+    first = last - rng.choice([0, 1, 1])
+    if rng.random() < 0.3 and ind in "WD":
+        cands = [y for y in special if last - 6 <= y < last]
+        first = rng.choice(cands) if cands and ind != "D" else first
+    out = []
+    for sid in range(1, rng.randint(1, 2) + 1):
+        ps = set()
+        top = g_periods_in_year(ind, last)
+        if rng.random() < 0.7:
+            ps.add((last, ind, top))
+        if rng.random() < 0.5 and top > 1:
+            ps.add((last, ind, top - 1))
+        if rng.random() < 0.5:
+            ps.add((first, ind, 1))
+        if rng.random() < 0.4:
+            ps.add((first, ind, g_periods_in_year(ind, first)))
+        for _ in range(rng.randint(1, 3)):
+            y = rng.randint(first, last)
+            ps.add((y, ind, rng.randint(1, g_periods_in_year(ind, y))))
+        out += [(sid, p) for p in sorted(ps)]
+    return out
+
+
 def tp_structure(measure_type="Number", extra=()):
     comps = [("Id_1", "Integer", "Identifier", False), ("Id_2", "Time_Period", "Identifier", False), ("Me_1", measure_type, "Measure", True)]
     comps += list(extra)
